@@ -447,10 +447,15 @@ class Executor:
             if n not in ct.params:
                 raise Unsupported(f"parameter '{n}' has no type in the contract")
             st.env[n] = ct.params[n].fresh(n, st)
+        for gname, gty in (getattr(ct, "globals", None) or {}).items():
+            self._check_global(gname)
+            st.env[gname] = gty.fresh(gname, st)
         self.entry = st.snapshot()
         self.entry_view = View(self, self.entry)
         pre = ct.requires(View(self, st))
         st.assume(pre)
+        if getattr(ct, "module_inv", None):
+            st.assume(ct.module_inv(View(self, st)))
         self.cover("pre", self.fn)
         try:
             self.exec_block(self.fn.body)
@@ -472,6 +477,31 @@ class Executor:
         hints = ct.hints(v, result) if getattr(ct, "hints", None) else []
         self.st.assume(hints)
         self.oblige("post", self.fn, ct.ensures(v, result))
+        if getattr(ct, "module_inv", None):
+            self.oblige("post.module_inv", self.fn, ct.module_inv(v))
+
+    def _check_global(self, name):
+        """a module-level variable under a module invariant: initialised to an empty literal at module level and
+        assigned / mutated by no other function of the module (else the invariant could be broken behind our back)"""
+        init_ok = False
+        for node in self.mod.tree.body:
+            tgt = None
+            if isinstance(node, ast.AnnAssign) and isinstance(node.target, ast.Name):
+                tgt, val = node.target.id, node.value
+            elif isinstance(node, ast.Assign) and len(node.targets) == 1 and isinstance(node.targets[0], ast.Name):
+                tgt, val = node.targets[0].id, node.value
+            if tgt == name:
+                if init_ok or not (isinstance(val, (ast.Dict, ast.List)) and not (getattr(val, "keys", None) or getattr(val, "elts", None))):
+                    raise Unsupported(f"global {name} is not initialised exactly once to an empty literal")
+                init_ok = True
+        if not init_ok:
+            raise Unsupported(f"global {name} has no module-level initialisation")
+        for fname, fnode in self.mod.funcs.items():
+            if fnode is self.fn:
+                continue
+            for n in ast.walk(fnode):
+                if isinstance(n, ast.Name) and n.id == name:
+                    raise Unsupported(f"global {name} is also used by {fname}: a module invariant needs every user under contract")
 
     def _check_raise(self, e):
         ct = self.contract
